@@ -348,6 +348,16 @@ func (m *Model) SummariseActions(execute *ssa.Function, actionValue map[int]int6
 // infeasible: the block path takes the failing edge of a type switch for every dynamic type
 // the switched value can have (the implicit default of an exhaustive type switch).
 func (m *Model) infeasible(bp []*ssa.BasicBlock) bool {
+	if m.EdgeInfeasible != nil {
+		for i := 0; i+1 < len(bp); i++ {
+			b := bp[i]
+			if ifi, ok := b.Instrs[len(b.Instrs)-1].(*ssa.If); ok && len(b.Succs) == 2 && b.Succs[0] != b.Succs[1] {
+				if m.EdgeInfeasible(ifi.Cond, b.Succs[0] == bp[i+1]) {
+					return true
+				}
+			}
+		}
+	}
 	if m.DynTypesOf == nil {
 		return false
 	}
